@@ -150,6 +150,20 @@ func checkC15(w *World, r *Report) {
 			}
 		}
 	})
+	// Load never removes an entry: a failing load (name gone, loader error) must leave the cache
+	// as it was — removal belongs to the explicit invalidation API
+	for _, part := range partList {
+		instrsOf(part, func(in ssa.Instruction) {
+			c, ok := in.(*ssa.Call)
+			if !ok {
+				return
+			}
+			if b, ok := c.Call.Value.(*ssa.Builtin); ok && b.Name() == "delete" && len(c.Call.Args) == 2 && isTemplatesMap(c.Call.Args[0]) {
+				n1++
+				r.bad("R15.1", ssaName(part), "cache untouched when nothing was loaded", w.posOf(in.Pos()), "Engine.Load (or a part of it) deletes from the template cache: when the reload that follows fails — the name is gone, a loader errors — the call returns an error AND the cached template is lost, so turning auto-reload off again or a later call no longer finds what was cached")
+			}
+		})
+	}
 	r.floor("not-found returns and cache stores in Engine.Load", n1, 2)
 
 	// ---- R15.2
@@ -368,6 +382,34 @@ func checkC15(w *World, r *Report) {
 				n4++
 				construct := "recorded lastModified is the loader's modification time"
 				src := timestampSource(x.Val, map[ssa.Value]bool{}, 0)
+				// … and of the very loader that delivered the source (the one stored in the same
+				// Template's loader field)
+				if src == "loader" {
+					var deliverer ssa.Value
+					instrsOf(part, func(in2 ssa.Instruction) {
+						if st2, ok := in2.(*ssa.Store); ok {
+							if fa2, ok := st2.Addr.(*ssa.FieldAddr); ok && fa2.X == fa.X {
+								if tn, f := fieldOfAddr(fa2); tn == "Template" && f == "loader" {
+									deliverer = st2.Val
+								}
+							}
+						}
+					})
+					if deliverer != nil {
+						want := loaderRoots(deliverer)
+						for _, recv := range modTimeReceivers(x.Val, map[ssa.Value]bool{}, 0) {
+							match := false
+							for rv := range loaderRoots(recv) {
+								if want[rv] {
+									match = true
+								}
+							}
+							if !match {
+								src = "GetModifiedTime of another loader than the one that delivered the source (" + describeLoader(recv) + ")"
+							}
+						}
+					}
+				}
 				if src == "loader" {
 					r.ok("R15.4", pname, construct, w.posOf(in.Pos()), "derives from GetModifiedTime of the loader that delivered the source (0 if the loader has no timestamps)", true)
 				} else {
@@ -520,4 +562,89 @@ func timestampSource(v ssa.Value, seen map[ssa.Value]bool, depth int) string {
 		return timestampSource(x.X, seen, depth+1)
 	}
 	return "a value of unknown origin"
+}
+
+// modTimeReceivers: the receivers of the GetModifiedTime calls a timestamp value can come from.
+func modTimeReceivers(v ssa.Value, seen map[ssa.Value]bool, depth int) []ssa.Value {
+	if seen[v] || depth > 8 {
+		return nil
+	}
+	seen[v] = true
+	var out []ssa.Value
+	switch x := v.(type) {
+	case *ssa.Extract:
+		if c, ok := x.Tuple.(*ssa.Call); ok && isGetModTime(c) {
+			if c.Call.IsInvoke() {
+				out = append(out, c.Call.Value)
+			} else if len(c.Call.Args) > 0 {
+				out = append(out, c.Call.Args[0])
+			}
+		}
+	case *ssa.Phi:
+		for _, e := range x.Edges {
+			out = append(out, modTimeReceivers(e, seen, depth+1)...)
+		}
+	case *ssa.UnOp:
+		if al, ok := x.X.(*ssa.Alloc); ok && al.Referrers() != nil {
+			for _, ref := range *al.Referrers() {
+				if st, ok := ref.(*ssa.Store); ok && st.Addr == al {
+					out = append(out, modTimeReceivers(st.Val, seen, depth+1)...)
+				}
+			}
+		}
+	case *ssa.Convert:
+		out = append(out, modTimeReceivers(x.X, seen, depth+1)...)
+	}
+	return out
+}
+
+// loaderRoots: the values a loader-typed value can be (through assertions, conversions, phis and
+// local variables).
+func loaderRoots(v ssa.Value) map[ssa.Value]bool {
+	out := map[ssa.Value]bool{}
+	var walk func(v ssa.Value, depth int)
+	walk = func(v ssa.Value, depth int) {
+		if out[v] || depth > 10 {
+			return
+		}
+		out[v] = true
+		switch x := v.(type) {
+		case *ssa.TypeAssert:
+			walk(x.X, depth+1)
+		case *ssa.ChangeInterface:
+			walk(x.X, depth+1)
+		case *ssa.MakeInterface:
+			walk(x.X, depth+1)
+		case *ssa.Extract:
+			if ta, ok := x.Tuple.(*ssa.TypeAssert); ok && x.Index == 0 {
+				walk(ta.X, depth+1)
+			}
+		case *ssa.Phi:
+			for _, e := range x.Edges {
+				walk(e, depth+1)
+			}
+		case *ssa.UnOp:
+			if al, ok := x.X.(*ssa.Alloc); ok && al.Referrers() != nil {
+				for _, ref := range *al.Referrers() {
+					if st, ok := ref.(*ssa.Store); ok && st.Addr == al {
+						walk(st.Val, depth+1)
+					}
+				}
+			}
+		}
+	}
+	walk(v, 0)
+	return out
+}
+
+func describeLoader(v ssa.Value) string {
+	for rv := range loaderRoots(v) {
+		if u, ok := rv.(*ssa.UnOp); ok {
+			if fa, ok := u.X.(*ssa.FieldAddr); ok {
+				tn, f := fieldOfAddr(fa)
+				return tn + "." + f
+			}
+		}
+	}
+	return v.Name()
 }
